@@ -354,7 +354,37 @@ def url_tls_family(ctx):
         ctx.violation({"kind": "oracle", "entry": "from_url over TLS", "what": bad[0][1], "scenario": bad[0][0], "failures": len(bad)})
 
 
+def store_family(ctx):
+    """The certificate store chosen by the caller, with the test CA installed as the platform's store (SSL_CERT_FILE): CertificateStore::None
+    trusts nothing but the added roots - with none added, no certificate at all - whereas Default trusts the platform's roots."""
+    scs, meta = [], []
+    for fl in ("sync", "tokio"):
+        for mode in ("required", "wrapper", "opportunistic"):
+            for store, add_root, should in (("none", False, False), ("none", True, True), ("default", False, True), ("default", True, True)):
+                scs.append({"id": len(scs), "flavor": fl, "mode": mode,
+                            "server": {"starttls_offered": True, "starttls_reply": "ok", "cert": "good", "implicit_tls": mode == "wrapper", "caps_before": ["AUTH PLAIN"], "caps_after": ["AUTH PLAIN"]},
+                            "client": {"domain": "localhost", "store": store, "add_root": add_root, "accept_invalid_certs": False, "accept_invalid_hostnames": False, "creds": True}})
+                meta.append((store, add_root, should))
+    bad = []
+    for (store, add_root, should), r, sc in zip(meta, run_tls(scs, trust_ca=True), scs):
+        ctx.count(); ctx.cls("store-%s/%s" % (store, sc["flavor"]))
+        if "error" in r or r.get("result") in ("PANIC", "HANG") or str(r.get("result", "")).startswith("setup-error"):
+            bad.append((sc, "harness/implementation failure: %s" % str(r)[:200])); continue
+        ok = r["result"].startswith("ok,")
+        if ok != should:
+            bad.append((sc, "certificate store %s, %s added root, peer certificate issued by a CA of the platform store (%s, %s): send %s" % (store, "the CA as" if add_root else "no", sc["mode"], sc["flavor"], r["result"][:80])))
+        elif not should and any(ln.upper().startswith((b"AUTH", b"MAIL", b"RCPT")) for ln in L(r["tls"])):
+            bad.append((sc, "credentials or envelope were sent over a session whose certificate the configured store does not trust"))
+        for ln in L(r["clear"]):
+            if not (ln.upper().startswith(b"EHLO ") or ln.upper() in (b"STARTTLS", b"QUIT")):
+                bad.append((sc, "%r was written in clear" % ln[:60]))
+    ctx.cov["oracle"]["certificate_store_none_trusts_only_added_roots"] = {"scenarios": len(scs), "failures": len(bad)}
+    if bad:
+        ctx.violation({"kind": "oracle", "entry": "TlsParametersBuilder::certificate_store", "what": bad[0][1], "scenario": bad[0][0], "failures": len(bad)})
+
+
 def run(ctx):
+    store_family(ctx)
     scs = gen(ctx.tier)
     ctx.note("%d TLS scenarios" % len(scs))
     res = run_tls(scs)
